@@ -3,6 +3,8 @@
 Part A (enum): Transport._compute_key(letter, n) on an un-started Transport against the reference KDF
 (vmc/refs/rfc4253.kdf, hashlib only) for every kex class's hash, boundary shared secrets, every
 letter and every length 1..512.
+Part C (enum at the packet seam): every (client->server suite, server->client suite) pair - asymmetric
+negotiations included - keyed through the real _activate_outbound/_activate_inbound of both roles.
 Part B (real handshakes under the scheduler): for every cipher x MAC pair two live Transports
 negotiate keys (and re-key once); a recording Transport subclass logs _set_K_H, _get_engine and the
 set_*_cipher arguments.  Installed values == reference derivation for the RFC's letter, client
@@ -20,14 +22,20 @@ META = {
     "level": "exploration",
     "technique": "bounded-exhaustive comparison of Transport._compute_key with an independent RFC 4253 7.2 KDF; "
                  "real client/server handshakes (initial + one re-key) under the cooperative scheduler for every "
-                 "cipher x MAC pair with recorded installed keys and independent wire decoding",
+                 "cipher x MAC pair with recorded installed keys and independent wire decoding; every pair of "
+                 "per-direction suites keyed at the packet seam by the real _activate_* of both roles",
     "text": "Part A: K in 9 boundary values (1, 0x7f, 0x80 sign-padding case, 2^255-1, 2^255, 2^1023, 2^2047+1, "
             "2^8191+12345, a 256-bit value), session_id equal to / different from H, letters A-F, every length "
             "1..512, the hash of every kex class paramiko registers (quick: one class per distinct hash) plus the "
             "sha1 fallback. Part B: all 72 cipher x MAC pairs, kex cycling over sha256/sha384/sha512/sha1 "
             "families (thorough: every pair with each of the 4), initial exchange and one re-key: the 6 installed "
             "values per side equal the reference derivation, match across peers, differ between directions, and "
-            "all encrypted packets of both directions verify under reference-derived keys.",
+            "all encrypted packets of both directions verify under reference-derived keys. Part C - new dimension "
+            "'asymmetric negotiation' (RFC 4253 7.1 negotiates each direction on its own; two paramiko peers never do): "
+            "all 72 x 72 (client->server cipher/MAC, server->client cipher/MAC) sessions, kex hash cycling over the 4 "
+            "(thorough: each with all 4), keyed on un-started Transports of both roles through the real "
+            "_activate_outbound/_activate_inbound; the same comparisons per direction, plus one packet per direction "
+            "decoded by the reference receiver and read by the peer.",
     "note": "K/H come from the real exchange (their correctness is C06); handshakes run under the default schedule only",
     "design_ref": "4/C04",
 }
@@ -447,7 +455,9 @@ def main(tier):
         "nontrivial = distinct (hash, K class, session_id==H, letter, number of hash blocks the length needs). "
         "part B case = one compared value (installed IV/key/MAC key vs reference, peer vs peer, direction vs "
         "direction) or one wire packet verified under reference keys; nontrivial = distinct (cipher, MAC, kex hash) "
-        "handshakes (initial + re-key) in which every comparison held",
+        "handshakes (initial + re-key) in which every comparison held. part C case = one compared value or packet of a "
+        "seam session; nontrivial = distinct (client->server cipher/MAC, server->client cipher/MAC, kex hash) sessions "
+        "in which every comparison held",
         ["K and H are whatever the real exchange produced (C06 judges them); the reference KDF uses hashlib only",
          "handshakes run under the deterministic default schedule (no schedule exploration is needed for a value "
          "property)", "host key ed25519, password auth, compression none in part B"])
